@@ -32,8 +32,18 @@ async fn publife_case(addr: std::net::SocketAddr, certs: &Path, log: &EvLog, run
     let steps = case["steps"].as_array().unwrap();
     let origins = case["origins"].as_u64().unwrap_or(2);
     let backoff = BackoffStrategy::constant().with_max_attempts(4).with_step(Duration::from_millis(20));
+    // "re-registers with the same settings": every handle of a case uses the same compression setting,
+    // which has to be in force again after every recovery
+    let comp = ["none", "lz4", "zstd:balanced", "gzip:fastest", "brotli_text:balanced"][(run % 5) as usize];
+    log.emit("settings", json!({"compression": comp}));
     let sync_client = connect_client(addr, certs, backoff.clone()).await?;
-    let mut sync_pub: Pub = sync_client.publisher(topic).with_encoder(StringCodec).open().await?;
+    let mut sync_pub: Pub = {
+        let mut b = sync_client.publisher(topic).with_encoder(StringCodec);
+        if let Some((c, _)) = compression(comp) {
+            b = b.with_compression(c);
+        }
+        b.open().await?
+    };
     let mut sync_n = 0u64;
     let mut pub_clients: BTreeMap<u64, Client> = BTreeMap::new(); // by connection id
     let mut pubs: BTreeMap<u64, Option<Pub>> = BTreeMap::new();
@@ -90,7 +100,11 @@ async fn publife_case(addr: std::net::SocketAddr, certs: &Path, log: &EvLog, run
         match op {
             "open_pub" => {
                 let c = connect_client(addr, certs, backoff.clone()).await?;
-                let p: Pub = c.publisher(topic).with_encoder(StringCodec).open().await?;
+                let mut b = c.publisher(topic).with_encoder(StringCodec);
+                if let Some((cc, _)) = compression(comp) {
+                    b = b.with_compression(cc);
+                }
+                let p: Pub = b.open().await?;
                 pub_clients.insert(conn, c);
                 pubs.insert(id, Some(p));
                 sent.insert(id, 0);
@@ -169,7 +183,11 @@ async fn publife_case(addr: std::net::SocketAddr, certs: &Path, log: &EvLog, run
             }
             "open_sub" => {
                 let c = connect_client(addr, certs, backoff.clone()).await?;
-                let mut stream = c.subscriber(topic).with_decoder(StringCodec).open().await?;
+                let mut sb = c.subscriber(topic).with_decoder(StringCodec);
+                if let Some((_, d)) = compression(comp) {
+                    sb = sb.with_decompression(d);
+                }
+                let mut stream = sb.open().await?;
                 let seen = Arc::new(std::sync::Mutex::new(vec![]));
                 let ended = Arc::new(AtomicBool::new(false));
                 let (s2, e2) = (seen.clone(), ended.clone());
